@@ -51,6 +51,8 @@ M = [
  ("G04_clone_limit_ge", "green", "src/arc.rs", "if old_size > MAX_REFCOUNT {", "if old_size >= MAX_REFCOUNT {"),
  ("G05_is_unique_inlined", "green", "src/arc.rs", "        Self::count(self) == 1", "        self.inner().count.load(Acquire) == 1"),
  ("G06_seqcst_everywhere", "green", "src/arc.rs", None, None),
+ ("G08_arc_ne_as_not_eq", "green", "src/arc.rs", "        !Self::ptr_eq(self, other) && *(*self) != *(*other)", "        !(self == other)"),
+ ("G09_arc_le_via_partial_cmp", "green", "src/arc.rs", "        *(*self) <= *(*other)", "        matches!((**self).partial_cmp(&**other), Some(Ordering::Less) | Some(Ordering::Equal))"),
  ("G07_locals_renamed_and_reordered", "green", "src/arc.rs", "        let this = ManuallyDrop::new(this);\n        this.as_ptr()", "        let guard = ManuallyDrop::new(this);\n        let raw = guard.as_ptr();\n        raw"),
 ]
 
